@@ -217,11 +217,37 @@ def validate(defn):
 
 
 PROBES = {
-    # recorded finding: a definition the validator rejects, whose top-level shape is fine but which the engine cannot
-    # interpret further, is announced RUNNING and then neither failed nor ended
-    "state-is-not-an-object": {"StartAt": "A", "States": {"A": 1}},
-    "state-without-type": {"StartAt": "A", "States": {"A": {"End": True}}},
+    # Hand-written rejected definitions whose top-level shape is fine but which the engine cannot interpret further.
+    # Each entry: definition, worker script, input.  The first five were left RUNNING for ever before the repairs
+    # recorded in known_findings.json ("fixed"); they must now end FAILED.  The last one is the recorded finding that
+    # remains: the exception is raised in a reply callback, outside every handler that could fail the execution.
+    "state-is-not-an-object": ({"StartAt": "A", "States": {"A": 1}}, {}, {}),
+    "state-without-type": ({"StartAt": "A", "States": {"A": {"End": True}}}, {}, {}),
+    "type-not-a-string": ({"StartAt": "A", "States": {"A": {"Type": 5, "End": True}}}, {}, {}),
+    "next-not-a-string": ({"StartAt": "A", "States": {"A": {"Type": "Pass", "Next": {"a": 1}},
+                                                      "B": {"Type": "Pass", "End": True}}}, {}, {}),
+    "parallel-parameters-unparsable": ({"StartAt": "P", "States": {"P": {
+        "Type": "Parallel", "Parameters": {"x.$": "Z"}, "End": True,
+        "Branches": [{"StartAt": "B", "States": {"B": {"Type": "Pass", "End": True}}}]}}}, {}, {}),
+    "retrier-without-errorequals": ({"StartAt": "A", "States": {"A": {
+        "Type": "Task", "Resource": "arn:aws:rpcmessage:local::function:f1", "Retry": [{"IntervalSeconds": 2}],
+        "End": True}}}, {"f1": [{"err": "E.X"}]}, {}),
 }
+
+
+def escape_site(res):
+    """Where the exception that left a rejected definition's execution RUNNING got out: the outermost engine
+    function of the traceback of an exception that escaped from a timer / reply callback, or the dispatcher's
+    catch-all (which can only acknowledge the event)."""
+    import re
+    for e in res.sim.errors:
+        tb = str(e[3]) if len(e) > 3 else ""
+        m = re.search(r'asl_workflow_engine/state_engine\.py", line \d+, in (\w+)', tb) or \
+            re.search(r'asl_workflow_engine/(\w+)\.py", line \d+, in (\w+)', tb)
+        if m:
+            return "callback:" + m.group(m.lastindex)
+        return "callback:?"
+    return "dropped-by-dispatcher"
 
 
 TS_BASE = {"StartAt": "C", "States": {
@@ -248,7 +274,9 @@ def run_one(i, extra):
     if isinstance(i, tuple) and i[0] == "probe":
         probe = i[1]
         i = 0
+    ts_item = None
     if isinstance(i, tuple) and i[0] == "ts":
+        ts_item = [i[1], i[2]]
         fields = [p for p, v in paths(TS_BASE) if p and isinstance(v, str) and (str(p[-1]).startswith("Timestamp"))]
         forced = copy.deepcopy(TS_BASE)
         val = (TS_STRINGS + [5, None, ["2023-11-14T22:13:20Z"]])[i[2]]
@@ -264,9 +292,9 @@ def run_one(i, extra):
         kind = "timestamp-field"
         script, functions, inp = {}, [], {"when": "2023-11-14T22:13:20Z"}
     elif probe is not None:
-        mutant = copy.deepcopy(PROBES[probe])
+        mutant, script, inp = copy.deepcopy(PROBES[probe])
         kind = "probe"
-        script, functions, inp = {}, [], {}
+        functions = sorted(script)
         probes["probe:" + probe] = 1
     elif r < 0.2:
         mutant = copy.deepcopy(rng.choice(GARBAGE_VALUES))
@@ -391,13 +419,16 @@ def run_one(i, extra):
         term = [x for x in seq if x != "RUNNING"]
         evs = w.terminal_events().get(marn, [])
         if not term and problems:
-            # rejected by the validator and left RUNNING for ever: recorded finding (see probes), counted here
+            # rejected by the validator and left RUNNING for ever: the witness is the place the exception escaped at
+            # (the recorded finding lists the reply-callback sites that remain; anything else is reported)
             probes["rejected-mutant-left-running"] = 1
             zombie = True
-            if probe is not None:
-                findings.append({"property": PROP, "rule": "rejected-definition-left-running", "witness": "probe:" + probe,
-                                 "detail": "the validator rejects %s; its execution was announced RUNNING and was never "
-                                           "failed or ended" % json.dumps(mutant)})
+            site = escape_site(res)
+            probes["left-running:" + site] = 1
+            findings.append({"property": PROP, "rule": "rejected-definition-left-running",
+                             "witness": ("probe:" + probe) if probe is not None else site,
+                             "detail": "the validator rejects %s; its execution was announced RUNNING and was never "
+                                       "failed or ended (%s)" % (json.dumps(mutant)[:600], site)})
         elif not term:
             findings.append({"property": PROP, "rule": "accepted-mutant-never-terminal", "witness": None,
                              "detail": "the validator reported no problem for %s but its execution reported RUNNING and "
@@ -434,6 +465,10 @@ def run_one(i, extra):
     for f in findings:
         f.setdefault("seed", seed)
         f["mutant"] = mutant
+        if probe is not None:
+            f["probe"] = probe
+        if ts_item is not None:
+            f["ts"] = ts_item
         f["poison"] = [p.decode("latin1") for p in poison]
     return common.summarize_run(res, PROP, findings, True,
                                 {"mutation": kind, "validator_problems": len(problems or []), "mutant_status": seq,
@@ -445,6 +480,10 @@ def main(argv):
         with open(argv[1]) as f:
             rec = json.load(f)
         i = rec["seed"] - common.base_seed() * 1000003
+        if rec.get("probe"):
+            i = ("probe", rec["probe"])
+        elif rec.get("ts"):
+            i = ("ts", rec["ts"][0], rec["ts"][1])
         r = run_one(i, {})
         same = [f for f in r["findings"] if f["rule"] == rec["rule"]]
         print("replay %s: %s" % (argv[1], "REPRODUCED" if same else "not reproduced (set VERIF_SEED to the base seed used)"))
